@@ -13,12 +13,15 @@ func init() { registry = append(registry, factsC12) }
 //
 //	subMonitorBeforeStart   the call ceaseFlowMonitor(...) (Subscribe + complete.Lock, done synchronously) is positioned
 //	                        before sp.startAll(ctx): the monitor cannot miss the inner start event's FlowTrace
+//	subActivationsTakeTurns the activation goroutine locks a mutex of the node before its relay subscribes and unlocks it in a
+//	                        deferred call: the inner nodes, tracer and wait group exist once per node, activations are
+//	                        serialised (the engine model's `nextTurn`)
 //	subRelayBeforeStart     the relay's sp.subTracer.Subscribe() is positioned before sp.startAll(ctx): the parent sees
 //	                        every inner trace (task requests included)
 func factsC12() {
 	f := load("subprocess.go")
 	run := funcDecl(f, "subProcess", "run")
-	mon, relay := "", ""
+	mon, relay, turns := "", "", ""
 	if run != nil && run.Body != nil {
 		// the innermost function literal that contains the startAll call is the activation goroutine
 		var act ast.Node
@@ -38,11 +41,37 @@ func factsC12() {
 			}
 			if s := callPos(act, "subTracer.Subscribe"); s != token.NoPos {
 				relay = boolLit(s < start)
+				// activations take turns: some sp.<mutex>.Lock() is positioned before the relay subscribes, and the same
+				// mutex is unlocked by a deferred call of the activation goroutine
+				turns = "false"
+				ast.Inspect(act, func(n ast.Node) bool {
+					c, ok := n.(*ast.CallExpr)
+					if !ok || c.Pos() >= s {
+						return true
+					}
+					fn := exprString(c.Fun)
+					if len(fn) > 5 && fn[len(fn)-5:] == ".Lock" {
+						mu := fn[:len(fn)-5]
+						unlocked := false
+						ast.Inspect(act, func(m ast.Node) bool {
+							if d, ok := m.(*ast.DeferStmt); ok && exprString(d.Call.Fun) == mu+".Unlock" {
+								unlocked = true
+							}
+							return true
+						})
+						if unlocked {
+							turns = "true"
+						}
+					}
+					return true
+				})
 			}
 		}
 	}
 	add("C12", "subMonitorBeforeStart", "Bool", mon,
 		"subprocess.go run (activation goroutine): ceaseFlowMonitor(...) is positioned before sp.startAll(ctx)")
+	add("C12", "subActivationsTakeTurns", "Bool", turns,
+		"subprocess.go run (activation goroutine): a mutex of the node is locked before the relay subscribes to the inner tracer and released by a deferred call — two tokens in one sub-process node never share an activation (D43)")
 	add("C12", "subRelayBeforeStart", "Bool", relay,
 		"subprocess.go run (activation goroutine): sp.subTracer.Subscribe() of the relay is positioned before sp.startAll(ctx)")
 }
